@@ -35,8 +35,11 @@ def main():
         "setup_cmd": "./setup.sh",
         "hooks": {
             "guard": "DELPH_IN_PYDELPHIN_VERIF",
-            "enable": "no source hook is needed: every observation is through the public API of the "
-                      "unmodified package; the variable is exported by the harness but read nowhere",
+            "enable": "no source hook is needed in /repo: every observation goes through the functions of the "
+                      "unmodified package; two wrappers are put around package functions at run time, in the driver "
+                      "process of the check only (ACEProcess._result_lines for C19, to record the raw answer lines; "
+                      "itsdb._add_row and the TestSuite's commit for C10, to record the rows batch processing "
+                      "produces and count its commits); the variable is exported by the harness but read nowhere",
             "baseline_off_cmd": "cd /repo && /venv/bin/python -m pytest -ra -q -p no:cacheprovider "
                                 "--timeout=900 --continue-on-collection-errors",
             "source_commits": [],
